@@ -29,6 +29,15 @@ class DocActions(object):
 
     self._engine.add_records(table_id, row_ids, column_values)
 
+    # A doc action states the records' values, including those of trigger-formula columns (given
+    # explicitly, or left at their defaults). Like in BulkUpdateRecord, prevent their
+    # recalculation, which adding the values of their dependencies would otherwise cause; this is
+    # important for undos in particular. (User actions adding records re-enable the calculation
+    # of the default formulas they need.)
+    for col in table.all_columns.values():
+      if col.has_formula() and not col.is_formula():
+        self._engine.prevent_recalc(col.node, row_ids, should_prevent=True)
+
   def RemoveRecord(self, table_id, row_id):
     return self.BulkRemoveRecord(table_id, [row_id])
 
